@@ -350,7 +350,13 @@ def run_case(unit, case, tier, work, extra_defines=(), witness=False, want_trace
         mode = unit.mode
         if witness:
             has_loops = False
-        if mode == 'dfcc':
+        if witness and gfree and 'fallback_replace' in m.get('witness', {}):
+            # ghost-free fallback: callee contracts that need ghost statements in the (changed) caller are
+            # not applied; the callee's body (or cbmc's built-in model) is used instead
+            replace = list(m['witness']['fallback_replace'])
+        if mode == 'dfcc' and not enforce and not replace and not has_loops:
+            pass    # nothing to instrument (ghost-free fallback with the callee bodies): plain bounded run
+        elif mode == 'dfcc':
             a = ['--dfcc', entry]
             if enforce:
                 a += ['--enforce-contract', enforce]
